@@ -624,12 +624,19 @@ pub fn generate(rng: &mut Rng, mode: Mode, form: Form) -> Graph {
     let mut defines = Vec::new();
     for name in names.iter().take(nd) {
         let v = match form {
-            Form::Pre => match weighted(rng, &[3, 2, 1, 1, 2]) {
+            Form::Pre => match weighted(rng, &[6, 4, 2, 2, 4, 3]) {
                 0 => rng.range(0, 9).to_string(),
                 1 => rng.pick(PLAIN).to_string(),
                 2 => String::new(),
                 3 => format!("{} {}", rng.pick(PLAIN), rng.range(1, 9)),
-                _ => rng.pick(MACROS).to_string(),
+                4 => rng.pick(MACROS).to_string(),
+                // a value that invokes a function-like macro of the file (sometimes with the
+                // wrong number of arguments: the expansion fails when the define is used)
+                _ => {
+                    let leaves: Vec<String> =
+                        vec![rng.range(1, 9).to_string(), rng.pick(PLAIN).to_string()];
+                    invocation(rng, FUNCS.len() - 1, &leaves, 2)
+                }
             },
             Form::Compile => match weighted(rng, &[5, 1, 2, 1]) {
                 0 => rng.range(0, 9).to_string(),
